@@ -41,12 +41,13 @@ Definition is_lit (ty : ttype) : bool :=
   end.
 Definition lit_ok (t : token) : Prop :=
   is_lit (ttype_of t) = true -> literal_value fparse (ttype_of t) (tval t) <> None.
-Definition nonEOF (t : token) : Prop := ttype_of t <> TEOF /\ lit_ok t.
+Definition nonEOF (t : token) : Prop := ttype_of t <> TEOF /\ ttype_of t <> TError /\ lit_ok t.
 Definition plain (ty : ttype) : bool :=
   match ty with TDelimiter | TEOL | TType => true | _ => false end.
 Lemma nonEOF_plain t : plain (ttype_of t) = true -> nonEOF t.
 Proof.
-  intro H. split.
+  intro H. split; [|split].
+  - intro E. rewrite E in H. discriminate.
   - intro E. rewrite E in H. discriminate.
   - intro L. destruct (ttype_of t); discriminate.
 Qed.
@@ -56,7 +57,6 @@ Definition good (o : outcome) (ts : list token) : Prop :=
   match o with
   | PValue _ => False
   | PSyntax t => In t ts
-  | PRuntime RCollator => exists a b, crank a b = None
   | PRuntime RStarved => ~ has_eof ts
   | PRuntime RUnknownType => bad_type ts
   | PRuntime RPushOverflow => False
@@ -205,7 +205,7 @@ Qed.
 
 (* ---------- parseIntrinsic ---------- *)
 Lemma pif_spec tys : forall t0 s,
-  P s <= 3 -> (forall ty, In ty tys -> ty <> TEOF) -> (tys = [] -> In t0 (stream s)) ->
+  P s <= 3 -> (forall ty, In ty tys -> ty <> TEOF /\ ty <> TError) -> (tys = [] -> In t0 (stream s)) ->
   match parse_intrinsic_from fparse tys (No t0 s) with
   | Yes v t s1 => stream s = t :: stream s1 /\ nonEOF t /\ R s1 <= R s /\ (R s1 = R s \/ P s1 = 0)
   | No t s1 => stream s1 = stream s /\ R s1 <= R s /\ (R s1 = R s \/ P s1 <= 1) /\ In t (stream s)
@@ -214,12 +214,13 @@ Lemma pif_spec tys : forall t0 s,
 Proof.
   induction tys as [|ty r IH]; intros t0 s HP Hty H0; simpl.
   - repeat split; auto.
-  - assert (Hne : ty <> TEOF) by (apply Hty; left; reflexivity).
+  - destruct (Hty ty (or_introl eq_refl)) as [Hne Hne2].
     pose proof (parse_token_spec ty None s HP) as S.
     destruct (parse_token ty None s) as [text t s1|t s1|o]; auto.
     + destruct S as (E & Et & Ex & _ & HR & HD).
       destruct (literal_value fparse ty text) eqn:LV.
       * repeat split; auto.
+        -- congruence.
         -- congruence.
         -- intros _. rewrite Et, <- Ex, LV. discriminate.
       * simpl. rewrite E. left. reflexivity.
@@ -234,7 +235,7 @@ Proof.
       * rewrite <- E. exact IH.
 Qed.
 
-Lemma intrinsic_types_ne : forall ty, In ty intrinsic_types -> ty <> TEOF.
+Lemma intrinsic_types_ne : forall ty, In ty intrinsic_types -> ty <> TEOF /\ ty <> TError.
 Proof. intros ty H. simpl in H. intuition (subst; discriminate). Qed.
 
 Lemma parse_intrinsic_spec s :
@@ -745,7 +746,7 @@ Proof.
       * lia.
       * eapply adv_in; eauto.
     + split; auto. eapply adv_in; eauto.
-    + split; auto. eapply build_collator; eauto.
+    + split; auto. eapply adv_in; eauto.
     + split; auto. exists tyt. repeat split; auto.
       * eapply adv_in; eauto.
       * rewrite <- Ec. eapply build_unknown; eauto.
@@ -858,7 +859,6 @@ Theorem parse_total_tokens ts :
   match parse_tokens fparse crank ts with
   | PValue _ => True
   | PSyntax t => In t ts
-  | PRuntime RCollator => exists a b, crank a b = None
   | _ => False
   end.
 Proof.
@@ -868,19 +868,14 @@ Proof.
   destruct S as (t & It & Ty & Nv). apply Nv. apply Hty; auto.
 Qed.
 
-(* with a collator that does not panic the outcome is a value or a located diagnostic *)
+(* since fix 37 (the Set constructor's panic is a located diagnostic) no hypothesis on the collator is needed *)
 Theorem parse_total_tokens_strict ts :
-  (forall a b, crank a b <> None) ->
   has_eof ts -> (forall t, In t ts -> ttype_of t = TType -> valid_type (tval t)) ->
   match parse_tokens fparse crank ts with
   | PValue _ => True
   | PSyntax t => In t ts
   | _ => False
   end.
-Proof.
-  intros Hc He Hty. pose proof (parse_total_tokens ts He Hty) as S.
-  destruct (parse_tokens fparse crank ts) as [v|t|k|]; auto.
-  destruct k; auto. destruct S as (a & b & E). exact (Hc a b E).
-Qed.
+Proof. exact (parse_total_tokens ts). Qed.
 End Corollaries.
 
